@@ -6,6 +6,8 @@ package rosmar
 import (
 	"context"
 	"database/sql"
+	"strings"
+	"sync"
 	"testing"
 	"time"
 
@@ -415,4 +417,55 @@ func TestFindingF21FailedReopenKeepsBucket(t *testing.T) {
 	val, _, err := b2.DefaultDataStore().(*Collection).GetRaw("k")
 	require.NoError(t, err)
 	require.Equal(t, `{"v":1}`, string(val))
+}
+
+// F22 [C20] CloseAndDelete takes the bucket lock and then (in _closeSqliteDB -> expiryManager.stop) the expiry lock; the
+// expiry timer's callback takes the expiry lock and then (in expireDocuments) the bucket lock. When the timer fires
+// while the bucket is being deleted the two wait for each other for ever.
+func TestFindingF22CloseAndDeleteWhileExpiryRuns(t *testing.T) {
+	b, err := OpenBucket(InMemoryURL, "finding_f22", CreateNew)
+	require.NoError(t, err)
+	c := b.DefaultDataStore().(*Collection)
+
+	started := make(chan struct{})
+	proceed := make(chan struct{})
+	oldCallback, oldLevel := LoggingCallback, GetLogLevel()
+	defer func() { LoggingCallback = oldCallback; SetLogLevel(oldLevel) }()
+	var once sync.Once
+	LoggingCallback = func(level LogLevel, f string, args ...any) {
+		if strings.HasPrefix(f, "EXP: Running scheduled expiration") {
+			once.Do(func() {
+				close(started) // the timer callback is running (it holds the expiry manager's lock)
+				<-proceed
+			})
+		}
+	}
+	SetLogLevel(LevelDebug)
+
+	_, err = c.AddRaw("k", 1, []byte(`{"v":1}`)) // expires in one second
+	require.NoError(t, err)
+	select {
+	case <-started:
+	case <-time.After(10 * time.Second):
+		t.Fatal("the expiry timer did not fire")
+	}
+
+	done := make(chan error, 1)
+	go func() { done <- b.CloseAndDelete(context.Background()) }()
+	// give CloseAndDelete time to get as far as it can while the timer callback is paused
+	deadline := time.Now().Add(500 * time.Millisecond)
+	for time.Now().Before(deadline) {
+		if b.mutex.TryLock() {
+			b.mutex.Unlock()
+			time.Sleep(10 * time.Millisecond)
+		} else {
+			break // CloseAndDelete holds the bucket lock
+		}
+	}
+	close(proceed)
+	select {
+	case <-done:
+	case <-time.After(5 * time.Second):
+		t.Fatal("deadlock: CloseAndDelete and the expiry timer callback wait for each other's lock")
+	}
 }
